@@ -604,6 +604,10 @@ pub fn raw_serialize<C: NatCtx>(des: &str, val: &Val) -> Option<Vec<u8>> {
 }
 
 pub fn run_c13<C: NatCtx>(v: &mut Env<C>) {
+    {
+        let sk = v.rnd_exp();
+        crate::p_c04::count_wrap_family(v, &sk);
+    }
     let quick = v.h.tier == Tier::Quick;
     let tok = v.tok.clone();
     let reps = if v.small { if quick { 3 } else { 12 } } else if quick { 1 } else { 4 };
